@@ -2,10 +2,12 @@
   C19 — the insertion-ordered map behaves like a map with first-insertion order.
 
   Property theorems only; helper lemmas live in Cog/OMap/{Lemmas,Refine}.lean.
-  Model: Cog/OMap/Model.lean (literal transcription of internal/orderedmap/map.go).
+  Model: Cog/OMap/Model.lean (literal transcription of internal/orderedmap/map.go); the method bodies of
+         map.go, TRANSLATED on every run into Cog.Gen.OMapSrc, are proved equal to it (`C19_src_*`).
   Spec : Cog/OMap/Spec.lean  (association list, oldest key first).
 -/
 import Cog.OMap.Refine
+import Cog.OMap.SrcEquiv
 set_option linter.unusedSectionVars false
 namespace Cog.OMap
 
@@ -171,6 +173,102 @@ theorem C19_at_panics_iff (m : OMap K V) (i : Nat) :
     capacity expression, `Remove` on an empty map panicked. -/
 theorem C19_prefix_remove_panicked (k : K) :
     (OMap.empty : OMap K V).removePreFix k = none := rfl
+
+/-! ### the translated source equals the model
+
+`Cog.Gen.OMapSrc.<m>Body` is the body of method `<m>` of /repo/internal/orderedmap/map.go as
+translated by /verif/extract/xomap on THIS run (mini-language and its Go semantics:
+Cog/OMap/Src.lean).  `Src.call funs body params m args` runs it on receiver `m`; the result is the
+receiver afterwards, the returned value and the trace of callback invocations (`none` = panic).
+Each theorem is for all receivers (no invariant needed), all arguments, all callbacks. -/
+section source
+open Src Cog.Gen.OMapSrc
+
+theorem C19_src_set (funs : Funs K V) (m : OMap K V) (k : K) (v : V) :
+    call funs setBody setParams m [.k k, .v v] = some (m.set k v, .unit, []) := src_set funs m k v
+
+theorem C19_src_get (funs : Funs K V) (m : OMap K V) (k : K) :
+    call funs getBody getParams m [.k k] = some (m, .v (m.get k), []) := src_get funs m k
+
+/-- `At`, including the panic: a negative or out-of-range index has no outcome -/
+theorem C19_src_at (funs : Funs K V) (m : OMap K V) (i : Int) :
+    call funs atBody atParams m [.n i] =
+      if i < 0 then none else (m.at? i.toNat).map (fun v => (m, .v v, [])) := src_at funs m i
+
+theorem C19_src_has (funs : Funs K V) (m : OMap K V) (k : K) :
+    call funs hasBody hasParams m [.k k] = some (m, .b (m.has k), []) := src_has funs m k
+
+theorem C19_src_remove (funs : Funs K V) (m : OMap K V) (k : K) :
+    call funs removeBody removeParams m [.k k] = some (m.remove k, .unit, []) := src_remove funs m k
+
+theorem C19_src_len (funs : Funs K V) (m : OMap K V) :
+    call funs lenBody lenParams m [] = some (m, .n m.len, []) := src_len funs m
+
+/-- `Iterate`: the callback is invoked on exactly the model's `iterate` sequence, in order -/
+theorem C19_src_iterate (funs : Funs K V) (m : OMap K V) :
+    call funs iterateBody iterateParams m [.unit] =
+      some (m, .unit, m.iterate.map (fun kv => ("p0", .k kv.1, .v kv.2))) := src_iterate funs m
+
+theorem C19_src_map (funs : Funs K V) (m : OMap K V) (f : K → V → V)
+    (hf : ∀ a b, funs "p0" (.k a) (.v b) = some (.v (f a b))) :
+    call funs mapBody mapParams m [.unit] = some (m, .om (m.mapVals f), []) := src_map funs m f hf
+
+theorem C19_src_filter (funs : Funs K V) (m : OMap K V) (p : K → V → Bool)
+    (hf : ∀ a b, funs "p0" (.k a) (.v b) = some (.b (p a b))) :
+    call funs filterBody filterParams m [.unit] = some (m, .om (m.filter p), []) :=
+  src_filter funs m p hf
+
+theorem C19_src_values (funs : Funs K V) (m : OMap K V) :
+    call funs valuesBody valuesParams m [] = some (m, .vs m.values, []) := src_values funs m
+
+theorem C19_src_sort (funs : Funs K V) (m : OMap K V) (less : K → K → Bool)
+    (hf : ∀ a b, funs "p0" (.k a) (.k b) = some (.b (less a b))) :
+    call funs sortBody sortParams m [.unit] = some (m.sort less, .unit, []) := src_sort funs m less hf
+
+/-- the function-valued argument seen as `funs`: any callback of each of the three shapes -/
+def cbMap (f : K → V → V) : Funs K V
+  | _, .k a, .v b => some (.v (f a b))
+  | _, _, _ => none
+def cbPred (p : K → V → Bool) : Funs K V
+  | _, .k a, .v b => some (.b (p a b))
+  | _, _, _ => none
+def cbLess (less : K → K → Bool) : Funs K V
+  | _, .k a, .k b => some (.b (less a b))
+  | _, _, _ => none
+
+/-- Summary: every translated method body of map.go computes the model's function. -/
+theorem C19_source_refines_model (m : OMap K V) (funs : Funs K V) :
+    (∀ k v, call funs setBody setParams m [.k k, .v v] = some (m.set k v, .unit, [])) ∧
+    (∀ k, call funs getBody getParams m [.k k] = some (m, .v (m.get k), [])) ∧
+    (∀ i : Int, call funs atBody atParams m [.n i] =
+      if i < 0 then none else (m.at? i.toNat).map (fun v => (m, .v v, []))) ∧
+    (∀ k, call funs hasBody hasParams m [.k k] = some (m, .b (m.has k), [])) ∧
+    (∀ k, call funs removeBody removeParams m [.k k] = some (m.remove k, .unit, [])) ∧
+    call funs lenBody lenParams m [] = some (m, .n m.len, []) ∧
+    call funs iterateBody iterateParams m [.unit] =
+      some (m, .unit, m.iterate.map (fun kv => ("p0", .k kv.1, .v kv.2))) ∧
+    (∀ f, call (cbMap f) mapBody mapParams m [.unit] = some (m, .om (m.mapVals f), [])) ∧
+    (∀ p, call (cbPred p) filterBody filterParams m [.unit] = some (m, .om (m.filter p), [])) ∧
+    call funs valuesBody valuesParams m [] = some (m, .vs m.values, []) ∧
+    (∀ less, call (cbLess less) sortBody sortParams m [.unit] = some (m.sort less, .unit, [])) :=
+  ⟨C19_src_set funs m, C19_src_get funs m, C19_src_at funs m, C19_src_has funs m,
+   C19_src_remove funs m, C19_src_len funs m, C19_src_iterate funs m,
+   fun f => C19_src_map _ m f (fun _ _ => rfl), fun p => C19_src_filter _ m p (fun _ _ => rfl),
+   C19_src_values funs m, fun less => C19_src_sort _ m less (fun _ _ => rfl)⟩
+
+/-! non-vacuity: the hypotheses on `funs` are satisfiable by every callback, and the translated
+    bodies really run (a concrete map, evaluated by the kernel through the theorems) -/
+example (f : K → V → V) : ∀ a b, cbMap f "p0" (.k a) (.v b) = some (.v (f a b)) := fun _ _ => rfl
+example (p : K → V → Bool) : ∀ a b, cbPred (K := K) (V := V) p "p0" (.k a) (.v b) = some (.b (p a b)) :=
+  fun _ _ => rfl
+example (l : K → K → Bool) : ∀ a b, cbLess (V := V) l "p0" (.k a) (.k b) = some (.b (l a b)) :=
+  fun _ _ => rfl
+example : (call (cbMap (fun _ v => v)) removeBody removeParams
+    (⟨[("a", 1), ("b", 2)], ["a", "b"]⟩ : OMap String Nat) [.k "a"]).map (fun r => (r.1.records, r.1.order))
+    = some ([("b", 2)], ["b"]) := by
+  rw [C19_src_remove]; decide
+
+end source
 
 /-! non-vacuity: a concrete reachable state satisfies the invariant and is non-trivial -/
 example : Inv ((OMap.empty : OMap String Nat).run
